@@ -2,6 +2,7 @@
 Implementation: golem.core.optimisers.fitness (SingleObjFitness, MultiObjFitness, Comparable).
 Model: coq/theories/Fitness/Fitness.v (agree / holds_b)."""
 import itertools
+import math
 from fractions import Fraction
 
 from common import c_Q, c_bool, c_list, c_opt
@@ -19,6 +20,34 @@ SMALL = [-1.0, 0.0, 1.0, 1.0 + 2.0 ** -40, 1.0 + 2.0 ** -20]
 BOUNDARY = [1.5e-8 - 2.0 ** -45, 1.5e-8 + 2.0 ** -45, 1.0 + 2.5e-8 - 2.0 ** -45, 1.0 + 2.5e-8 + 2.0 ** -45]
 
 
+INF = math.inf
+# penalty values: +-inf is an ordinary (valid) metric value of a minimised objective.  The Q model
+# sees +-inf as +-2^2000, a number beyond every finite binary64: every comparison, difference-
+# against-tolerance test and product with a weight +-1 of the grid comes out the same
+BIG = '((2 ^ 2000)%Z # 1)'
+NBIG = '((- 2 ^ 2000)%Z # 1)'
+
+
+def qq(x):
+    if isinstance(x, float) and math.isinf(x):
+        return BIG if x > 0 else NBIG
+    return c_Q(x)
+
+
+def _enc(x):
+    if isinstance(x, float) and math.isinf(x):
+        return 'inf' if x > 0 else '-inf'
+    return x
+
+
+def _dec(x):
+    if x == 'inf':
+        return INF
+    if x == '-inf':
+        return -INF
+    return x
+
+
 class F:
     """description of a fitness object: ('S', primary|None, supp) or ('M', values, weights)"""
 
@@ -32,11 +61,17 @@ class F:
 
     def coq(self):
         if self.kind == 'S':
-            return '(Single %s %s)' % (c_opt(self.a, c_Q, 'Q'), c_list([c_Q(x) for x in self.b], 'Q'))
-        return '(Multi %s %s)' % (c_list([c_Q(x) for x in self.a], 'Q'), c_list([c_Q(x) for x in self.b], 'Q'))
+            return '(Single %s %s)' % (c_opt(self.a, qq, 'Q'), c_list([qq(x) for x in self.b], 'Q'))
+        return '(Multi %s %s)' % (c_list([qq(x) for x in self.a], 'Q'), c_list([qq(x) for x in self.b], 'Q'))
 
     def key(self):
-        return (self.kind, self.a if self.kind == 'S' else tuple(self.a), self.b)
+        """JSON-safe identity of the description (infinite values as the strings 'inf' / '-inf')"""
+        return (self.kind, _enc(self.a) if self.kind == 'S' else tuple(_enc(x) for x in self.a),
+                tuple(_enc(x) for x in self.b))
+
+    def has_inf(self):
+        vs = ([self.a] if self.kind == 'S' else list(self.a)) + list(self.b)
+        return any(isinstance(x, float) and math.isinf(x) for x in vs)
 
     def n(self):
         return (1 + len(self.b)) if self.kind == 'S' else len(self.a)
@@ -113,6 +148,18 @@ def pool(ctx):
         out.append(F('S', v, (w,)))
         out.append(F('M', (v, w), (1.0, 1.0)))
         out.append(F('M', (v, w), (1.0, -1.0)))
+    # infinite (penalty) components, alone and next to finite ones; weights only +-1 here
+    for v in (INF, -INF):
+        out.append(F('S', v, ()))
+        out.append(F('S', v, (1.0,)))
+        out.append(F('S', 1.0, (v,)))
+        out.append(F('M', (v,), (1.0,)))
+        out.append(F('M', (v,), (-1.0,)))
+        out.append(F('M', (1.0, v), (1.0, 1.0)))
+        out.append(F('M', (v, 1.0), (1.0, -1.0)))
+    out.append(F('S', INF, (INF,)))
+    out.append(F('M', (INF, INF), (1.0, 1.0)))
+    out.append(F('M', (INF, -INF), (1.0, 1.0)))
     r = ctx.rng
     for _ in range(60):
         n = 3
@@ -134,17 +181,20 @@ def classify(f, g):
 
 def run(ctx):
     ctx.rule = ('ordered pairs of fitness objects over a dyadic grid (both classes, lengths 1..3, invalid, '
-                'negated weights); distinct = distinct ordered pair; non-trivial = both valid, same class, same length')
+                'negated weights, infinite penalty components); distinct = distinct ordered pair; non-trivial = both valid, same class, same length')
     ctx.trusted_extra = ['binary64 arithmetic of the implementation is exact on the dyadic grid used, so the Q model '
-                         'and the float code take the same branches']
+                         'and the float code take the same branches',
+                         'infinite (penalty) components are shown to the Q model as +-2^2000: for the grid values and weights +-1 '
+                         'every float comparison, isclose test and product involving +-inf has the same outcome as with that bound']
     fs = pool(ctx)
     pairs = list(itertools.product(fs, fs))
     n = ctx.budget(4000, 10 ** 9)
     exhaustive = n >= len(pairs)
     if not exhaustive:
         # keep the structured core (all pairs of the length<=1 pool) and sample the rest
-        core = [p for p in pairs if p[0].n() <= 1 and p[1].n() <= 1]
-        rest = [p for p in pairs if not (p[0].n() <= 1 and p[1].n() <= 1)]
+        in_core = lambda p: (p[0].n() <= 1 and p[1].n() <= 1) or (p[0].has_inf() and p[1].has_inf())
+        core = [p for p in pairs if in_core(p)]
+        rest = [p for p in pairs if not in_core(p)]
         ctx.rng.shuffle(rest)
         pairs = core + rest[:max(0, n - len(core))]
     cases, meta = [], []
@@ -153,7 +203,7 @@ def run(ctx):
         cases.append('(%s, %s, %s)' % (f.coq(), g.coq(), obs_coq(o)))
         meta.append((f, g, o))
         cl = classify(f, g)
-        ctx.count('pairs', key=(f.key(), g.key()), nontrivial=(cl == 'comparable'), kind=cl, length=max(f.n(), g.n()))
+        ctx.count('pairs', key=(f.key(), g.key()), nontrivial=(cl == 'comparable'), kind=cl, length=max(f.n(), g.n()), infinite=(f.has_inf() or g.has_inf()))
     # the same laws must hold when one object stands on both sides, and for objects whose values
     # were re-assigned after they had been hashed (state must not leak through caches)
     for f in fs:
@@ -192,7 +242,8 @@ def replay(ctx, payload):
     if not case:
         return
     def mk(k):
-        return F(k[0], k[1], k[2])
+        a = _dec(k[1]) if k[0] == 'S' else tuple(_dec(x) for x in k[1])
+        return F(k[0], a, tuple(_dec(x) for x in k[2]))
     f, g = mk(case['f']), mk(case['g'])
     o = observe(f, g)
     res = ctx.coq_cases('replay', REQ, 'fun c => match c with (f, g, o) => [agree f g o; holds_b f g o] end',
